@@ -14,7 +14,7 @@ variable {σo σc : Type} (O : OpenerI σo) (C : CloserI σc)
     theorem (C01, C05–C10, C12) speaks about -/
 theorem executeMid_none (c : Circ σo σc) (ctx : CallerCtx) (run fb : Option Script) :
     executeMid O C c ctx run fb none = execute O C c ctx run fb := by
-  sorry
+  exact cmid_executeMid_none O C c ctx run fb
 
 /-- THE EXECUTION TIMEOUT IS OBSERVED ONCE: a change of the timeout that lands while a call is in flight is invisible
     to that call — what it returns, what the functions saw (the derived deadline included), every event with its kind,
@@ -24,7 +24,7 @@ theorem timeout_change_mid_call_invisible (c : Circ σo σc) (ctx : CallerCtx) (
     let r := executeMid O C c ctx run fb (some { c.cfg with timeout := t' })
     let r0 := execute O C c ctx run fb
     r.2 = r0.2 ∧ (r.1 = r0.1 ∨ r.1 = { r0.1 with cfg := { r0.1.cfg with timeout := t' } }) := by
-  sorry
+  exact cmid_timeout_invisible O C c ctx run fb t'
 
 /-- ForceOpen switched on under a call: that call delivers no Closed notification (it cannot close a circuit the
     operator has just forced open), whatever the closer answers -/
@@ -32,14 +32,16 @@ theorem forceOpen_mid_call_never_closes (c : Circ σo σc) (ctx : CallerCtx) (ru
     (hen : c.cfg.disabled = false) (hfo : m.forceOpen = true) :
     let r := executeMid O C c ctx run fb (some m)
     r.2.1.runSeen.isSome → ∀ t, Emit.closed t ∉ r.2.1.emits := by
-  sorry
+  intro r hseen t
+  exact cmid_forceOpen_never_closes O C c ctx run fb m hen hfo hseen t
 
 /-- ForcedClosed switched on under a call: that call delivers no Opened notification, whatever the opener answers -/
 theorem forcedClosed_mid_call_never_opens (c : Circ σo σc) (ctx : CallerCtx) (run fb : Option Script) (m : LiveCfg)
     (hen : c.cfg.disabled = false) (hfc : m.forcedClosed = true) :
     let r := executeMid O C c ctx run fb (some m)
     r.2.1.runSeen.isSome → ∀ t, Emit.opened t ∉ r.2.1.emits := by
-  sorry
+  intro r hseen t
+  exact cmid_forcedClosed_never_opens O C c ctx run fb m hen hfc hseen t
 
 /-- the settings are replaced exactly when the function ran: afterwards the circuit carries the new settings iff the
     run function was invoked, the old ones otherwise -/
@@ -47,6 +49,6 @@ theorem mid_call_settings_take_effect (c : Circ σo σc) (ctx : CallerCtx) (run 
     (hen : c.cfg.disabled = false) :
     let r := executeMid O C c ctx run fb (some m)
     r.1.cfg = (if r.2.1.runSeen.isSome then m else c.cfg) := by
-  sorry
+  exact cmid_settings_take_effect O C c ctx run fb m hen
 
 end CM.Props.C11
